@@ -270,8 +270,10 @@ def unpack_shape(u, arg, pos, w, kind):
         if u is m:
             msgs.append('snorm unpack does not clamp to [-1,1] (the most negative code decodes below -1)')
         else:
-            r = O.equivalent(tm.substitute(u, {m: tm.inp('__q', 0, 32)}), tm.substitute(spec, {m: tm.inp('__q', 0, 32)}), nan=False)
-            if r is not True:
+            qv = tm.inp('__q', 0, 32)
+            u_q, s_q = tm.substitute(u, {m: qv}), tm.substitute(spec, {m: qv})
+            r = O.equivalent(u_q, s_q, nan=False)
+            if r is not True and not _same_on_code_range(u_q, s_q, qv, m, conv, w):
                 msgs.append('result is not clamp(q, -1, 1) of the scaled field')
     else:
         if conv.op == 'sitofp' and fld.op == 'sext':
@@ -281,6 +283,31 @@ def unpack_shape(u, arg, pos, w, kind):
     if msgs:
         return R.REFUTED, '; '.join(msgs)
     return R.PROVED, 'x = %s(field) %s %s%s' % (conv.op, '/' if m.op == 'fdiv' else '*', 'S' if m.op == 'fdiv' else 'round(1/%d)' % want, ', clamped to [-1,1]' if kind == 'snorm' else '')
+
+
+def _same_on_code_range(u_q, s_q, qv, m, conv, w):
+    """the decoder need only agree with clamp(q, -1, 1) for the values q = scaled field that a w-bit signed code can produce: q lies in [q(-2^(w-1)), q(2^(w-1) - 1)],
+    both ends computed exactly (binary32) from the scaling term itself.  Both sides are selections between q and constants (piecewise q / constant), so agreement at
+    the ends, at every constant breakpoint inside the range and at two points strictly inside each piece is agreement on the whole range."""
+    from laneflow import ceval as CE
+    try:
+        ends = []
+        for code in (-(1 << (w - 1)), (1 << (w - 1)) - 1):
+            cv = tm.const(conv.args[0].w, code & ((1 << conv.args[0].w) - 1))
+            ends.append(CE.b2f(32, CE.evaluate(tm.substitute(m, {conv.args[0]: cv}), {})))
+        lo, hi = min(ends), max(ends)
+        brk = sorted({tm.fval(c) for t in (u_q, s_q) for c in tm.walk(t) if c.op == 'const' and c.w == 32 and lo < tm.fval(c) < hi} | {lo, hi})
+        pts = set(brk)
+        for a, b in zip(brk, brk[1:]):
+            pts.add(a + (b - a) / 3)
+            pts.add(a + 2 * (b - a) / 3)
+        for x in sorted(pts):
+            env = {qv: CE.f2b(32, x)}
+            if CE.evaluate(u_q, env) != CE.evaluate(s_q, env):
+                return False
+        return True
+    except (CE.NoValue, Exception):
+        return False
 
 
 def int_cases(suffix, wordT, compT, n):
